@@ -112,8 +112,8 @@ def weights_body(n, kind, explicit):
         # fresh variables bounded by baseline and every outcome. The product lemmas (non-negative x non-negative) are proved
         # one by one and then assumed, so that the final query is linear over the monomials.
         nn = lambda v: env.ge(v, 0.0, 0)
-        wc = [None] + [env.cut(w[k], "w%d" % k, [nn]) for k in range(1, len(combos))]
-        oc = [None] + [env.cut(outcomes[k], "o%d" % k) for k in range(1, len(combos))]
+        wc = [None] + [env.cut(w[k], "w%d" % k, [nn], inject=False) for k in range(1, len(combos))]
+        oc = [None] + [env.cut(outcomes[k], "o%d" % k, inject=False) for k in range(1, len(combos))]
         lo = env.cut(None, "lo", [lambda v: env.le(v, base, 0)] + [(lambda v, k=k: env.le(v, base + oc[k], 0)) for k in range(1, len(combos))]) if env.symbolic else min([base] + [base + outcomes[k] for k in range(1, len(combos))])
         hi = env.cut(None, "hi", [lambda v: env.ge(v, base, 0)] + [(lambda v, k=k: env.ge(v, base + oc[k], 0)) for k in range(1, len(combos))]) if env.symbolic else max([base] + [base + outcomes[k] for k in range(1, len(combos))])
         totc = 0.0
